@@ -312,9 +312,13 @@ def rule_consume(ctx: Ctx):
 def rule_raise(ctx: Ctx):
     rep = ctx.rep
     fn = ctx.fn("SignatureAdapter.bind_expected")
-    raises = [n for n in own_nodes(fn.node) if isinstance(n, ast.Raise)]
-    rep.check(len(raises) == 1, "C07.raise", fn.loc(), "the tolerant binder has a single raise statement", fn.key,
-              f"{len(raises)} raise statements: " + "; ".join(norm_stmt(r) for r in raises))
+    raise_nodes = {}
+    for p in ctx.paths(fn, inline=None, exc_edges="try", unroll=2):
+        for e in p.of("raise"):
+            if not e.x.get("reraise"):
+                raise_nodes[(e.fn.key, e.line)] = e
+    rep.check(len(raise_nodes) == 1, "C07.raise", fn.loc(), "the tolerant binder has a single raise statement (helpers included)", fn.key,
+              f"{len(raise_nodes)} raise statements: " + "; ".join(norm_stmt(e.node) for e in raise_nodes.values()))
     n = 0
     for p in ctx.paths(fn, inline=None, exc_edges="try", unroll=2):
         if p.kind != "raise" or not any(e.kind == "raise" and not e.x.get("reraise") for e in p.events):
